@@ -1,6 +1,6 @@
 use generational_arena::{Arena, Index};
 use parking_lot::Mutex;
-use std::sync::atomic::{AtomicUsize, Ordering};
+use std::sync::atomic::{AtomicU64, AtomicUsize, Ordering};
 use std::time::Duration;
 
 /// A timer entry stored in the shared Arena.
@@ -33,7 +33,14 @@ pub(crate) struct TimerWheel {
   timers: Mutex<Arena<Timer>>,
   current_tick: AtomicUsize,
   tick_duration: Duration,
+  /// Cache time (nanoseconds since the cache epoch) up to which ticks have been
+  /// processed: the wheel turns with elapsed time, not with the number of
+  /// `advance` calls.
+  advanced_to_nanos: AtomicU64,
 }
+
+/// Upper bound on ticks processed by one `advance` call after a long idle gap.
+const MAX_TICKS_PER_ADVANCE: u64 = 1 << 16;
 
 impl TimerWheel {
   pub(crate) fn new(wheel_size: usize, tick_duration: Duration) -> Self {
@@ -46,6 +53,7 @@ impl TimerWheel {
       timers: Mutex::new(Arena::new()),
       current_tick: AtomicUsize::new(0),
       tick_duration,
+      advanced_to_nanos: AtomicU64::new(crate::time::now_duration().as_nanos() as u64),
     }
   }
 
@@ -118,7 +126,34 @@ impl TimerWheel {
     }
   }
 
+  /// Processes every tick that has elapsed since the previous call and returns
+  /// the key hashes whose timers fired. Maintenance runs at arbitrary moments
+  /// (janitor, opportunistic, explicit `run_maintenance`), so one tick per
+  /// call would make timers fire after N calls instead of after their duration.
   pub(crate) fn advance(&self) -> Vec<u64> {
+    let tick_nanos = (self.tick_duration.as_nanos() as u64).max(1);
+    let now = crate::time::now_duration().as_nanos() as u64;
+    let last = self.advanced_to_nanos.load(Ordering::Relaxed);
+    let due = now.saturating_sub(last) / tick_nanos;
+    if due == 0 {
+      return Vec::new();
+    }
+    if self
+      .advanced_to_nanos
+      .compare_exchange(last, last + due * tick_nanos, Ordering::Relaxed, Ordering::Relaxed)
+      .is_err()
+    {
+      // Another maintainer is turning the wheel for this interval.
+      return Vec::new();
+    }
+    let mut expired_hashes = Vec::new();
+    for _ in 0..due.min(MAX_TICKS_PER_ADVANCE) {
+      expired_hashes.extend(self.advance_one_tick());
+    }
+    expired_hashes
+  }
+
+  fn advance_one_tick(&self) -> Vec<u64> {
     let tick_to_process = self.current_tick.fetch_add(1, Ordering::Relaxed);
     let slot_index = tick_to_process % self.wheel.len();
 
